@@ -10,7 +10,8 @@ EXPLANATION = (
     'returns the state taken after the write; H3 logical time is a max-join of old state, wall clock (and message time in recv); '
     'H4 the state write is dominated by the not-drifted edge of `(new_time saturating_sub wall) > MAX_CLOCK_DRIFT`, recv also guards '
     'the message time and refuses an equal node id before reading the clock; H5 the counter is 0 or checked_add(_,1) with the overflow '
-    'turned into an error, and the wall clock is read once. NOT decided: strict increase for all wall-clock histories (value '
+    'turned into an error, and the wall clock is read once; H6 whenever the new logical time may equal the old state\'s time (recv: the '
+    'message\'s time) the new counter is computed from the old (the message\'s) counter — decided path-sensitively over the equality tests. NOT decided: strict increase for all wall-clock histories (value '
     'arithmetic over (time, counter)); the 2^32-second boundary.')
 ASSUMPTIONS = ['pack/accessor layout is as decided under C10.E1']
 
@@ -230,6 +231,91 @@ def check_body(ctx, facts, body, which):
            'counter is 0 or checked_add(_, 1) with overflow converted into an error (%d increment site(s))' % len(producers) if good else
            'counter arithmetic feeding the new state uses %s (must be checked_add(_,1) + ok_or + `?`): on exhaustion the counter wraps / saturates and a duplicate or smaller stamp is issued'
            % sorted({p[0] for p in producers}))
+    # ---- H6: when logical time does not advance past the old state (resp. the message), the new counter depends on the old
+    #          counter (resp. the message counter).  Path-sensitive over the equality tests between new / old / message time.
+    def role_of(local):
+        roots = referent_roots(body, local) | {local}
+        back = set()
+        for r in roots:
+            back |= flow.backward([r])
+        if a_time in back or any(a_time in flow.forward([r], stop=[0]) and body.local_ty(r) == 'core::time::Duration' and
+                                 any(t['dest']['l'] == r and cname(t) in ('core::cmp::max', 'core::cmp::Ord::max') for _b, t in calls) for r in roots):
+            return 'new'
+        for r in roots:
+            for _b, t in calls:
+                if t['dest']['l'] == r and cname(t) == HT + 'datacake_timestamp':
+                    src = flow.backward([op_local(t['args'][0])])
+                    return 'msg' if (which == 'recv' and 2 in src and 1 not in src) else 'old'
+        return None
+    eq_of = {}   # result local -> (key, polarity)
+    for c in all_comparisons(body):
+        if c['rel'] not in ('==', '!=') or c['lhs'] is None or c['rhs'] is None:
+            continue
+        ra, rb = role_of(c['lhs']), role_of(c['rhs'])
+        if 'new' in (ra, rb) and (ra in ('old', 'msg') or rb in ('old', 'msg')):
+            key6 = ra if ra != 'new' else rb
+            eq_of[c['dest']] = (key6, c['rel'] == '==')
+    # counter definitions
+    ctr = a_ctr
+    for _ in range(4):
+        ds = [s for _b, _j, s in body.assigns() if s['lhs']['l'] == ctr and not s['lhs']['p']]
+        if len(ds) == 1 and ds[0]['rv']['k'] == 'use' and op_local(ds[0]['rv']['op']) is not None and not op_place(ds[0]['rv']['op'])['p']:
+            ctr = op_local(ds[0]['rv']['op'])
+        else:
+            break
+    cdefs = [(b, s) for b, _j, s in body.assigns() if s['lhs']['l'] == ctr and not s['lhs']['p']]
+    c_old = {t['dest']['l'] for _b, t in calls if cname(t) == HT + 'counter' and 1 in flow.backward([op_local(t['args'][0])])
+             and not (which == 'recv' and 2 in flow.backward([op_local(t['args'][0])]) and 1 not in flow.backward([op_local(t['args'][0])]))}
+    c_msg = {t['dest']['l'] for _b, t in calls if cname(t) == HT + 'counter' and which == 'recv' and 2 in flow.backward([op_local(t['args'][0])])
+             and 1 not in flow.backward([op_local(t['args'][0])])}
+    reach_states = {}
+    seen6 = set()
+    work6 = [(0, ())]
+    while work6:
+        blk6, facts6 = work6.pop()
+        if (blk6, facts6) in seen6:
+            continue
+        seen6.add((blk6, facts6))
+        reach_states.setdefault(blk6, set()).add(facts6)
+        t6 = body.term(blk6)
+        succs = list(body.succ(blk6))
+        if t6['k'] == 'switch':
+            l6 = op_local(t6['discr'])
+            if l6 in eq_of:
+                key6, pos = eq_of[l6]
+                fd = dict(facts6)
+                tm = {int(v): tb for v, tb in t6['targets']}
+                f_t = tm.get(0, t6['otherwise'])
+                t_t = t6['otherwise'] if 0 in tm else tm.get(1)
+                for val, tgt in ((True, t_t), (False, f_t)):
+                    if tgt is None:
+                        continue
+                    truth = val if pos else (not val)
+                    if key6 in fd and fd[key6] != truth:
+                        continue
+                    nf = dict(fd)
+                    nf[key6] = truth
+                    work6.append((tgt, tuple(sorted(nf.items()))))
+                continue
+        for s6 in succs:
+            work6.append((s6, facts6))
+    need = {'old': c_old, 'msg': c_msg} if which == 'recv' else {'old': c_old}
+    good6, why6 = bool(cdefs) and bool(eq_of), []
+    for b6, s6 in cdefs:
+        deps = set()
+        for pl in rv_places(s6['rv']):
+            deps |= flow.backward([pl['l']])
+        for facts6 in reach_states.get(b6, ()):
+            fd = dict(facts6)
+            for key6, srcs in need.items():
+                if fd.get(key6, True) is not False and not (deps & srcs):
+                    good6 = False
+                    why6.append('the counter written at line %s is reachable while new time == %s time%s, yet does not depend on the %s counter'
+                                % (s6['cs'], key6, '' if key6 in fd else ' is not excluded', 'clock\'s own' if key6 == 'old' else 'message'))
+    ctx.ob('C09.H6', which + '|counter-depends-on-equal-time-source', good6, site(body, pt['cs']),
+           'whenever the new logical time may equal the old state\'s (the message\'s) time, the new counter is computed from the old (the message) counter' if good6 else
+           ('; '.join(sorted(set(why6))[:2]) or 'counter definitions / time equality tests not recognised (fail closed)') +
+           ': the clock can issue (or move to) a stamp that is not greater than one it issued or accepted before')
     # constant 0 reset exists
     zero = any(s['lhs']['l'] in cb and s['rv']['k'] == 'use' and const_int(s['rv']['op']) == 0 for b, j, s in body.assigns())
     ctx.ob('C09.H5', which + '|counter-reset', zero, site(body), 'counter resets to constant 0 when logical time advances' if zero else 'no constant-0 reset of the counter found')
